@@ -155,8 +155,10 @@ class VmRun(object):
                 it.call('Machine::set_stack', [m, Sc('i64', 0), Sc('u64', S.f2b(self.samplerate))], fr)
                 return Sc('i64', 1)
             return HostFn(name, getsr)
-        base = name.split('$')[0]
-        return FnV('plugin::builtin_functins::%s::machine_function' % base)
+        if '$' in name:
+            # arity-specialised array builtins are closures built by plugin::try_make_specialized_extcls: not modelled
+            raise Unsupported('external function %s (arity-specialised closure)' % name)
+        return FnV('plugin::builtin_functins::%s::machine_function' % name)
 
     def build_machine(self, prog):
         it = self.it
